@@ -714,11 +714,13 @@ type StmtPruneTop struct {
 	Table    TableName
 	KeyCols  []string
 	PartCols []string
-	OrderCol string
-	Param    int
+	// the window's order by list; OrderDesc per column
+	OrderCols []string
+	OrderDesc []bool
+	Param     int
 }
 
-var pruneRE = regexp.MustCompile(`(?s)^\s*delete\s+from\s+([a-z_.]+)\s+where\s*\(([a-z_, ]+)\)\s*not\s+in\s*\(\s*select\s+([a-z_, ]+?)\s+from\s*\(\s*select\s+([a-z_, \n\t]+?),\s*row_number\(\)\s*over\s*\(\s*partition\s+by\s+([a-z_, ]+?)\s+order\s+by\s+([a-z_]+)\s+desc\s*\)\s*as\s+rn\s+from\s+([a-z_.]+)\s*\)\s*as\s+[a-z]+\s+where\s+rn\s*<=\s*\$([0-9]+)\s*\)\s*;?\s*$`)
+var pruneRE = regexp.MustCompile(`(?s)^\s*delete\s+from\s+([a-z_.]+)\s+where\s*\(([a-z_, ]+)\)\s*not\s+in\s*\(\s*select\s+([a-z_, ]+?)\s+from\s*\(\s*select\s+([a-z_, \n\t]+?),\s*row_number\(\)\s*over\s*\(\s*partition\s+by\s+([a-z_, ]+?)\s+order\s+by\s+([a-z_, ]+?)\s*\)\s*as\s+rn\s+from\s+([a-z_.]+)\s*\)\s*as\s+[a-z]+\s+where\s+rn\s*<=\s*\$([0-9]+)\s*\)\s*;?\s*$`)
 
 func splitCols(s string) []string {
 	var out []string
@@ -753,7 +755,22 @@ func parsePrune(src string) (Stmt, error) {
 		tn = TableName{Schema: m[1][:i], Name: m[1][i+1:]}
 	}
 	n, _ := strconv.Atoi(m[8])
-	return StmtPruneTop{Table: tn, KeyCols: key, PartCols: splitCols(m[5]), OrderCol: m[6], Param: n}, nil
+	st := StmtPruneTop{Table: tn, KeyCols: key, PartCols: splitCols(m[5]), Param: n}
+	for _, it := range splitCols(m[6]) {
+		f := strings.Fields(it)
+		switch {
+		case len(f) == 1:
+			st.OrderCols, st.OrderDesc = append(st.OrderCols, f[0]), append(st.OrderDesc, false)
+		case len(f) == 2 && (f[1] == "asc" || f[1] == "desc"):
+			st.OrderCols, st.OrderDesc = append(st.OrderCols, f[0]), append(st.OrderDesc, f[1] == "desc")
+		default:
+			return nil, &ErrUnsupported{"keep-newest-n form: order by item " + it}
+		}
+	}
+	if len(st.OrderCols) == 0 {
+		return nil, &ErrUnsupported{"keep-newest-n form without order by"}
+	}
+	return st, nil
 }
 
 func (p *parser) delete() (Stmt, error) {
